@@ -1,5 +1,5 @@
 (* Props/C08.v -- C08: reduce preserves the function and only merges identical siblings.  Property theorems only. *)
-From AT Require Import Num Vec Aff PTree Reduce.
+From AT Require Import Num Vec Aff PTree Reduce Cells Abs Cache Elim WfC OpsWf ReduceSweep.
 
 Theorem C08_preserves : forall t x, bin t -> eval (reduce t) x = eval t x.
 Proof. exact eval_reduce. Qed.
@@ -23,8 +23,21 @@ Definition c08_ex : ptree :=
 Example C08_nonvacuous : bin c08_ex /\ reduce c08_ex = D (c08_p 0) [T c08_id; T (c08_p 1)] /\ size c08_ex = 7%nat.
 Proof. repeat split; try (apply binb_spec; vm_compute; reflexivity); vm_compute; reflexivity. Qed.
 
+(* ---- the algorithm as coded: indices collected breadth-first, reversed, the local merge rule applied at every listed
+   index that still exists and is not the root.  On arena-shaped trees with unique node indices this sweep computes
+   the bottom-up reduction creduce, whose erasure is reduce: so the theorems above are about what the code does,
+   and every node that survives keeps its index and cached state (the merged decision is replaced by its child 0) *)
+Theorem C08_sweep_is_bottom_up : forall r leaf f st c0 c1 h,
+  uniq (CN r leaf f st c0 c1) -> (cheight (CN r leaf f st c0 c1) <= h)%nat ->
+  sweep r (rev (bfs_order h (CN r leaf f st c0 c1))) (CN r leaf f st c0 c1) = creduce (CN r leaf f st c0 c1).
+Proof. exact reduce_sweep. Qed.
+Theorem C08_bottom_up_is_reduce : forall n m t, cwf n m t -> erase (creduce t) = reduce (erase t).
+Proof. exact erase_creduce. Qed.
+
 Print Assumptions C08_preserves.
 Print Assumptions C08_never_grows.
 Print Assumptions C08_idempotent.
 Print Assumptions C08_no_equal_siblings.
 Print Assumptions C08_keeps_different.
+Print Assumptions C08_sweep_is_bottom_up.
+Print Assumptions C08_bottom_up_is_reduce.
